@@ -29,11 +29,12 @@ def canon(x, depth=0):
         base = pd.DataFrame(x)
         return ["GuardedFrame", canon(base, depth + 1), ["writes-by-callee"] + list(x._verif_writes)]
     if isinstance(x, pd.DataFrame):
-        return ["DataFrame", [str(c) for c in x.columns], canon(list(x.index), depth + 1), [canon(x[c].tolist(), depth + 1) for c in x.columns] if x.columns.is_unique else canon(x.values.tolist(), depth + 1)]
+        return ["DataFrame", [str(c) for c in x.columns], canon(list(x.index), depth + 1), [canon(x[c].tolist(), depth + 1) for c in x.columns] if x.columns.is_unique else canon(x.values.tolist(), depth + 1),
+                ["names", canon(list(x.index.names), depth + 1), canon(list(x.columns.names), depth + 1)]]
     if isinstance(x, pd.Series):
-        return ["Series", str(x.name), canon(list(x.index), depth + 1), canon(x.tolist(), depth + 1)]
+        return ["Series", str(x.name), canon(list(x.index), depth + 1), canon(x.tolist(), depth + 1), ["names", canon(list(x.index.names), depth + 1)]]
     if isinstance(x, pd.Index):
-        return ["Index", canon(list(x), depth + 1)]
+        return ["Index", canon(list(x), depth + 1), canon(list(x.names), depth + 1)]
     if x is pd.NA or x is pd.NaT:
         return "NA"
     if isinstance(x, dict):
